@@ -78,6 +78,8 @@ func evalLin(v ssa.Value, env map[*ssa.Parameter]lin, depth int) lin {
 		}
 	case *ssa.Convert:
 		return evalLin(x.X, env, depth+1)
+	case *ssa.ChangeType:
+		return evalLin(x.X, env, depth+1)
 	case *ssa.UnOp:
 		if x.Op == token.MUL {
 			if fa, ok := x.X.(*ssa.FieldAddr); ok {
@@ -302,11 +304,35 @@ func checkC15(c *Ctx) {
 	// AddCallerSkip is additive
 	if acs := c.Func(zp, "AddCallerSkip"); acs != nil {
 		ok := false
-		for _, f := range WithClosures(acs) {
+		fns := WithClosures(acs)
+		viaType := false
+		// the option may be a named type holding the number, its apply method doing the addition
+		for _, r := range Returns(acs) {
+			v := RetVals(r)[0]
+			if mi, isMI := v.(*ssa.MakeInterface); isMI {
+				v = mi.X
+			}
+			if n, isN := types.Unalias(v.Type()).(*types.Named); isN && n.Obj().Pkg() != nil && n.Obj().Pkg().Path() == zp {
+				if m := c.Method(zp, n.Obj().Name(), "apply"); m != nil {
+					// the value handed to the type is the parameter itself
+					if cv, isCv := Strip(v).(*ssa.Convert); isCv && Strip(cv.X) == ssa.Value(acs.Params[0]) || Strip(v) == ssa.Value(acs.Params[0]) {
+						fns = append(fns, m)
+						viaType = true
+					}
+				}
+			}
+		}
+		for _, f := range fns {
 			for _, st := range FieldStoresOf(f, c.Named(zp, "Logger")) {
 				if st.Field == "callerSkip" {
 					l := evalLin(st.Instr.Val, nil, 0)
-					ok = l.c == 0 && l.syms["callerSkip"] == 1 && l.syms["skip"] == 1 && len(l.syms) == 2
+					other := ""
+					for k := range l.syms {
+						if k != "callerSkip" {
+							other = k
+						}
+					}
+					ok = l.c == 0 && l.syms["callerSkip"] == 1 && len(l.syms) == 2 && l.syms[other] == 1 && (other == "skip" || viaType && len(f.Params) > 0 && (other == f.Params[0].Name() || other == "param "+f.Params[0].Name()))
 				}
 			}
 		}
